@@ -72,47 +72,6 @@ theorem C22_positionSort_perm {α : Type} (l : List (Int × α)) : Perm (isortL 
 theorem C22_positionSort_stable {α : Type} (l : List (Int × α)) (k : Int) :
     (isortL l).filter (fun x => x.1 == k) = l.filter (fun x => x.1 == k) := isortL_stable l k
 
-theorem nonnegOf_eq_sel {α : Type} (l : List (Option Int × α)) : nonnegOf l = l.filterMap Spec.selNonneg := by
-  induction l with
-  | nil => rfl
-  | cons e l ih =>
-    obtain ⟨p, x⟩ := e
-    simp only [nonnegOf, filterMap_cons, Spec.selNonneg] at ih ⊢
-    cases p with
-    | none => simpa using ih
-    | some p =>
-      by_cases hp : p < 0
-      · have : ¬ 0 ≤ p := by omega
-        simp [hp, this, ih]
-      · have : 0 ≤ p := by omega
-        simp [hp, this, ih]
-
-theorem nonneg_keys_sublist {α : Type} (l : List (Option Int × α)) :
-    Sublist ((nonnegOf l).map (·.1)) (l.filterMap (·.1)) := by
-  induction l with
-  | nil => simp [nonnegOf]
-  | cons e l ih =>
-    obtain ⟨p, x⟩ := e
-    cases p with
-    | none => simpa [nonnegOf] using ih
-    | some p =>
-      by_cases hp : p < 0
-      · simpa [nonnegOf, hp] using ih.cons p
-      · simpa [nonnegOf, hp] using ih.cons_cons p
-
-theorem neg_keys_sublist {α : Type} (l : List (Option Int × α)) :
-    Sublist ((negOf l).map (·.1)) (l.filterMap (·.1)) := by
-  induction l with
-  | nil => simp [negOf]
-  | cons e l ih =>
-    obtain ⟨p, x⟩ := e
-    cases p with
-    | none => simpa [negOf] using ih
-    | some p =>
-      by_cases hp : p < 0
-      · simpa [negOf, hp] using ih.cons_cons p
-      · simpa [negOf, hp] using ih.cons p
-
 /-- `position_sort` IS the documented order when the explicit positions are pairwise different
     (which `shell.define` and `_command_pos_args` both enforce). -/
 theorem C22_order {α : Type} (l : List (Option Int × α)) (hn : (l.filterMap (·.1)).Nodup) :
